@@ -408,7 +408,14 @@ func (g *G) genZoneDates(id string) *History {
 	at := base
 	for i := 0; i < 2+g.r.Intn(2); i++ {
 		hdr := Hdr{{"Date", dateAt(at, 0)}}
-		if g.chance(0.5) {
+		if g.chance(0.3) {
+			// an origin without a clock: no Date (or one that does not parse); the recipient records the time it
+			// received the response — in GMT, whatever zone it lives in
+			hdr = Hdr{{"Cache-Control", pick(g, "max-age=3600", "max-age=7200")}}
+			if g.chance(0.3) {
+				hdr = append(hdr, [2]string{"Date", "yesterday"})
+			}
+		} else if g.chance(0.5) {
 			hdr = append(hdr, [2]string{"Expires", form(bubbleEpoch + at/sec + 3600)})
 		} else {
 			hdr = append(hdr, [2]string{"Last-Modified", form(bubbleEpoch + at/sec - 36000)})
